@@ -142,12 +142,46 @@ package language
 //@ func MapToObject
 //@   partial
 //@   requires val != nil
+//@   callsite[C10] mapComplexAttributeToObject: val.BOOL == nil && val.N == nil && val.S == nil && !(val.NULL != nil && *val.NULL) && arg.val == val
 //@   ensures[C10] val.BOOL != nil ==> result1 == nil && Truth(result0, *val.BOOL)
 //@   ensures[C10] val.BOOL == nil && val.N != nil ==> typeis(result0, "*Number") && fresh(result0.(*Number)) && result0.(*Number).Value == parseFloat(*val.N)
 //@   ensures[C10] val.BOOL == nil && val.N == nil && val.S != nil ==> result1 == nil && typeis(result0, "*String") && fresh(result0.(*String)) && result0.(*String).Value == *val.S
 //@   ensures[C10] val.BOOL == nil && val.N == nil && val.S == nil && val.NULL != nil && *val.NULL ==> result1 == nil && typeis(result0, "*Null") && fresh(result0.(*Null)) && !result0.(*Null).IsUndefined
+// C10, containers (one level): a list keeps its length and converts its elements in order, a map keeps its key set and
+// converts the value under each key, a string set has every member of the stored set, a number set the parsed value of
+// every member
+//@ func mapAttributeToList
+//@   partial
+//@   opaque MapToObject
+//@   callsite[C10] MapToObject: 0 <= rangeindex + 1 && rangeindex + 1 < len(val.L) && arg.val == val.L[rangeindex + 1]
+//@   ensures[C10] result1 == nil ==> exited(1) && typeis(result0, "*List") && fresh(result0.(*List)) && len(result0.(*List).Value) == len(val.L)
+//@ func mapAttributeToMap
+//@   partial
+//@   opaque MapToObject
+//@   callsite[C10] MapToObject: k in val.M && arg.val == val.M[k]
+//@   ensures[C10] result1 == nil ==> exited(1) && typeis(result0, "*Map") && fresh(result0.(*Map)) && dom(result0.(*Map).Value) == dom(val.M)
+//@   loop 1:
+//@     invariant m != nil && fresh(m) && dom(m) == visited
+//@ func mapAttributeToStringSet
+//@   ensures[C10] result1 == nil && typeis(result0, "*StringSet") && fresh(result0.(*StringSet)) && result0.(*StringSet).Value != nil
+//@   ensures[C10] forall j int :: {param.val.SS[j]} 0 <= j && j < len(param.val.SS) ==> (param.val.SS[j] == nil ? "" : *param.val.SS[j]) in result0.(*StringSet).Value && result0.(*StringSet).Value[(param.val.SS[j] == nil ? "" : *param.val.SS[j])]
+//@   loop 1:
+//@     invariant ss != nil && fresh(ss) && -1 <= rangeindex && rangeindex < len(param.val.SS)
+//@     invariant forall j int :: {param.val.SS[j]} 0 <= j && j <= rangeindex ==> (param.val.SS[j] == nil ? "" : *param.val.SS[j]) in ss && ss[(param.val.SS[j] == nil ? "" : *param.val.SS[j])]
+//@ func mapAttributeToNumberSet
+//@   partial
+//@   ensures[C10] result1 == nil ==> exited(1) && typeis(result0, "*NumberSet") && fresh(result0.(*NumberSet)) && result0.(*NumberSet).Value != nil
+//@   ensures[C10] result1 == nil ==> forall j int :: {param.val.NS[j]} 0 <= j && j < len(param.val.NS) ==> parseFloat((param.val.NS[j] == nil ? "" : *param.val.NS[j])) in result0.(*NumberSet).Value
+//@   loop 1:
+//@     invariant ns != nil && fresh(ns) && -1 <= rangeindex && rangeindex < len(param.val.NS)
+//@     invariant forall j int :: {param.val.NS[j]} 0 <= j && j <= rangeindex ==> parseFloat((param.val.NS[j] == nil ? "" : *param.val.NS[j])) in ns
 //@ func mapComplexAttributeToObject
 //@   partial
+//@   callsite[C10] mapAttributeToMap: len(val.B) == 0 && val.M != nil && arg.val == val
+//@   callsite[C10] mapAttributeToList: len(val.B) == 0 && val.M == nil && val.L != nil && arg.val == val
+//@   callsite[C10] mapAttributeToStringSet: len(val.B) == 0 && val.M == nil && val.L == nil && val.SS != nil && arg.val == val
+//@   callsite[C10] mapAttributeToBinarySet: len(val.B) == 0 && val.M == nil && val.L == nil && val.SS == nil && val.BS != nil && arg.val == val
+//@   callsite[C10] mapAttributeToNumberSet: len(val.B) == 0 && val.M == nil && val.L == nil && val.SS == nil && val.BS == nil && val.NS != nil && arg.val == val
 //@   requires val != nil
 //@   ensures[C14] len(val.B) != 0 ==> result1 == nil && typeis(result0, "*Binary") && fresh(result0.(*Binary)) && fresh(arr(result0.(*Binary).Value)) && len(result0.(*Binary).Value) == len(val.B)
 //@   ensures[C10] len(val.B) != 0 ==> forall j int :: {result0.(*Binary).Value[j]} 0 <= j && j < len(val.B) ==> result0.(*Binary).Value[j] == val.B[j]
@@ -286,17 +320,35 @@ package language
 //@ func (*Error).ToDynamoDB
 //@ func (*String).ToDynamoDB
 //@   ensures[C10] result.S != nil && *result.S == s.Value && OnlyS(result)
+// C10, containers (one level; the children are converted by the same methods): a list keeps its length, a map its key
+// set, a string set yields only its members, a number set only renderings of its members
 //@ func (*Map).ToDynamoDB
-//@ func (*List).ToDynamoDB
+//@   ensures[C10] result.M != nil && dom(result.M) == dom(m.Value) && result.L == nil && result.S == nil && result.N == nil && result.BOOL == nil && result.NULL == nil && result.SS == nil && result.NS == nil && result.BS == nil && len(result.B) == 0
+//@   ensures[C10] forall k string :: {result.M[k]} k in result.M ==> result.M[k] != nil
 //@   loop 1:
-//@     invariant fresh(arr(attr.L)) && arr(attr.L) != 0
+//@     invariant attr.M != nil && fresh(attr.M) && dom(attr.M) == visited && attr.L == nil && attr.S == nil && attr.N == nil && attr.BOOL == nil && attr.NULL == nil && attr.SS == nil && attr.NS == nil && attr.BS == nil && len(attr.B) == 0
+//@     invariant forall k string :: {attr.M[k]} k in attr.M ==> attr.M[k] != nil
+//@ func (*List).ToDynamoDB
+//@   ensures[C10] len(result.L) == len(l.Value) && result.M == nil && result.S == nil && result.N == nil && result.BOOL == nil && result.NULL == nil && result.SS == nil && result.NS == nil && result.BS == nil && len(result.B) == 0
+//@   ensures[C10] forall j int :: {result.L[j]} 0 <= j && j < len(result.L) ==> result.L[j] != nil
+//@   loop 1:
+//@     invariant fresh(arr(attr.L)) && arr(attr.L) != 0 && -1 <= rangeindex && rangeindex < len(l.Value) && len(attr.L) == rangeindex + 1
+//@     invariant attr.M == nil && attr.S == nil && attr.N == nil && attr.BOOL == nil && attr.NULL == nil && attr.SS == nil && attr.NS == nil && attr.BS == nil && len(attr.B) == 0
+//@     invariant forall j int :: {attr.L[j]} 0 <= j && j < len(attr.L) ==> attr.L[j] != nil
 //@ func (*StringSet).ToDynamoDB
+//@   ensures[C10] forall j int :: {result.SS[j]} 0 <= j && j < len(result.SS) ==> result.SS[j] != nil && *result.SS[j] in ss.Value
+//@   ensures[C10] result.M == nil && result.S == nil && result.N == nil && result.BOOL == nil && result.NULL == nil && result.L == nil && result.NS == nil && result.BS == nil && len(result.B) == 0
 //@   loop 1:
 //@     invariant fresh(arr(attr.SS)) && arr(attr.SS) != 0
+//@     invariant forall j int :: {attr.SS[j]} 0 <= j && j < len(attr.SS) ==> attr.SS[j] != nil && *attr.SS[j] in visited
+//@     invariant attr.M == nil && attr.S == nil && attr.N == nil && attr.BOOL == nil && attr.NULL == nil && attr.L == nil && attr.NS == nil && attr.BS == nil && len(attr.B) == 0
 //@ func (*BinarySet).ToDynamoDB
 //@ func (*NumberSet).ToDynamoDB
+//@   callsite[C10] numToString: arg.v in ns.Value
+//@   ensures[C10] result.M == nil && result.S == nil && result.N == nil && result.BOOL == nil && result.NULL == nil && result.L == nil && result.SS == nil && result.BS == nil && len(result.B) == 0
 //@   loop 1:
 //@     invariant fresh(arr(attr.NS)) && arr(attr.NS) != 0
+//@     invariant attr.M == nil && attr.S == nil && attr.N == nil && attr.BOOL == nil && attr.NULL == nil && attr.L == nil && attr.SS == nil && attr.BS == nil && len(attr.B) == 0
 
 // Apply writes the environment back into the item: every value that is not excluded is stored, as a fresh attribute,
 // under its (alias-mapped) name; no other attribute of the item is touched and none is ever deleted by Apply itself
@@ -356,6 +408,18 @@ package language
 //@   requires env != nil && env.store != nil
 //@   callsite[C07] EvalUpdate: arg.n == node.Right && arg.env == env
 //@   callsite[C07] (*Environment).Set: typeis(node.Left, "*Identifier") && arg.e == env && arg.name == node.Left.(*Identifier).Value && arg.val == val
+
+// SET l[i] = v: position i of the list is overwritten, or the value is appended when the list is shorter; no other
+// position changes or moves (positions removed earlier in the same expression stay in place until the final compaction,
+// so that every index of one expression refers to the list as it was)
+//@ func setListValue
+//@   maypanic
+//@   modifies list.Value, list.Value[*]
+//@   ensures[C07] typeis(result, "*Null") && result.(*Null) == UNDEFINED
+//@   ensures[C07] 0 <= index && index < old(len(list.Value)) ==> len(list.Value) == old(len(list.Value)) && list.Value[index] == value &&
+//@                (forall j int :: {list.Value[j]} 0 <= j && j < old(len(list.Value)) && j != index ==> list.Value[j] == old(list.Value[j]))
+//@   ensures[C07] index >= old(len(list.Value)) ==> len(list.Value) == old(len(list.Value)) + 1 && list.Value[old(len(list.Value))] == value &&
+//@                (forall j int :: {list.Value[j]} 0 <= j && j < old(len(list.Value)) ==> list.Value[j] == old(list.Value[j]))
 
 // ---- C09: the grammar of call arguments -------------------------------------------------------------------
 // nextToken shifts the look-ahead token into the current one
